@@ -127,6 +127,31 @@ def big_rejected(chk, idx, size):
     chk.dist["big_rejected_bytes"] = chk.dist.get("big_rejected_bytes", []) + [len(big)]
 
 
+def zero_threads(chk, idx):
+    """--threads 0 is a thread count too: the run must end (no worker exists, so it cannot succeed silently: either a
+    non-zero status, or status 0 with the complete report)"""
+    rng = chk.rng
+    root = vlib.scratch("c07_zero%d" % idx)
+    blobs = [pipeline.make_info(rng, i, PATHS) for i in range(rng.choice([1, 2, 6]))]
+    branch = rng.random() < 0.5
+    args = pipeline.lay_out(rng, os.path.join(root, "in"), blobs)
+    rc, out, err = pipeline.run_cli(args, 0, branch, timeout=LIMIT, cwd=root)
+    chk.count()
+    hist = {"inputs": [b.decode() for b in blobs], "threads": 0, "branch": branch, "args": [os.path.relpath(a, root) for a in args]}
+    if rc is None:
+        chk.violation(dict(hist, kind="oracle", clause="grcov --threads 0 did not terminate within %d s" % LIMIT), tag="hang")
+        return
+    if rc == 0:
+        parsed = vlib.run_impl("parse", [{"hex": b.hex(), "format": "info", "branch": branch} for b in blobs], chk.pid)
+        batches = [[[n, gen.cov_canon(c)] for n, c in r["ok"]] for r in parsed if "ok" in r]
+        why = report_oracle(pipeline.read_lcov_report(out), by_path(batches))
+        if why:
+            chk.violation(dict(hist, kind="oracle", clause="status 0 with --threads 0 but the report is not the aggregation of the inputs: " + why), tag="status")
+            return
+    chk.nontrivial(["c07-zero", idx, rc])
+    chk.dist["zero_threads_status"] = chk.dist.get("zero_threads_status", []) + [rc]
+
+
 def validate(chk):
     pend = chk._pending
     exprs = [vlib.app("run_pipeline", t, cap, False, items, labels_coq(labels)) for _, t, cap, items, labels, _, _ in pend]
@@ -161,6 +186,8 @@ def run(chk):
     n = 60 if chk.tier == "quick" else 1200
     for i in range(n):
         scenario(chk, i)
+    for i in range(2 if chk.tier == "quick" else 10):
+        zero_threads(chk, i)
     sizes = [70 << 10, (1 << 20) + 4096, (4 << 20) + 4096, 9 << 20] + ([] if chk.tier == "quick" else [(16 << 20) + 1, 33 << 20, 65 << 20])
     for i, sz in enumerate(sizes):
         big_rejected(chk, i, sz)
@@ -171,7 +198,7 @@ def run(chk):
                        "injected fault or really malformed (rejected by parse_lcov), inputs that panic the worker outside or inside the result-map lock (one, many, all workers); "
                        "each run under a %d s limit: must terminate; a death implies a non-zero status; without deaths status 0 and the report equals the aggregation of the "
                        "accepted artifacts; the hook event log is scheduled into LTS labels and replayed by Coq (must be an execution ending in MExit with the same status). "
-                       "plus tracefiles of 70 KiB - 9 MiB (thorough: up to 65 MiB) with one malformed record at the start, middle or end, next to small well-formed inputs: skipped as a whole. "
+                       "plus runs with --threads 0 (must end; status 0 only with the complete report); plus tracefiles of 70 KiB - 9 MiB (thorough: up to 65 MiB) with one malformed record at the start, middle or end, next to small well-formed inputs: skipped as a whole. "
                        "non-trivial = run whose trace reached validation; distinct by scenario" % LIMIT)
     chk.cov["trusted_base"] = ["Coq kernel; vm_compute for trace replay", "hooks H1-H3 in /repo (cfg mozilla_grcov_verif)", "Python event scheduler (output re-checked by Coq)",
                                "modelled, not verified: crossbeam channel FIFO/disconnect wake-up, Mutex poisoning, thread spawn/join, process::exit; OS scheduler"]
